@@ -11,6 +11,7 @@ import (
 	"bytes"
 	"context"
 	"encoding/xml"
+	"errors"
 	"fmt"
 	"hash/fnv"
 	"regexp"
@@ -124,6 +125,64 @@ func compare(rec *opRec, got *xmltree.Node, streamNS string, s2s bool, local str
 		return "altered:" + classify(d), d
 	}
 	return "", ""
+}
+
+// partialForms are calls that fail (or are abandoned) in the middle of their
+// element.
+var partialForms = []string{"Send:reader-fails", "SendElement:payload-reader-fails", "Encode:xmlstream.Marshaler-fails", "Encode:xmlstream.WriterTo-fails", "TokenWriter:closed-mid-element"}
+
+var errPartial = errors.New("verif: injected failure in mid-element")
+
+// failingReader returns toks and then errPartial.
+type failingReader struct {
+	toks []xml.Token
+}
+
+func (f *failingReader) Token() (xml.Token, error) {
+	if len(f.toks) == 0 {
+		return nil, errPartial
+	}
+	t := f.toks[0]
+	f.toks = f.toks[1:]
+	return t, nil
+}
+
+type failingMarshaler struct{ toks []xml.Token }
+
+func (f failingMarshaler) TokenReader() xml.TokenReader { return &failingReader{toks: f.toks} }
+
+type failingWriterTo struct{ toks []xml.Token }
+
+func (f failingWriterTo) WriteXML(w xmlstream.TokenWriter) (int, error) {
+	return xmlstream.Copy(w, &failingReader{toks: f.toks})
+}
+
+func doPartial(s *xmpp.Session, form string) error {
+	ctx, cancel := context.WithTimeout(context.Background(), 30*time.Second)
+	defer cancel()
+	start := xml.StartElement{Name: xml.Name{Local: "message"}, Attr: []xml.Attr{attr(markAtt, "partial"), attr("type", "chat")}}
+	body := xml.StartElement{Name: xml.Name{Local: "body"}}
+	inner := []xml.Token{body, xml.CharData("cut off he")}
+	whole := append([]xml.Token{start}, inner...)
+	switch form {
+	case "Send:reader-fails":
+		return s.Send(ctx, &failingReader{toks: whole})
+	case "SendElement:payload-reader-fails":
+		return s.SendElement(ctx, &failingReader{toks: inner}, start)
+	case "Encode:xmlstream.Marshaler-fails":
+		return s.Encode(ctx, failingMarshaler{whole})
+	case "Encode:xmlstream.WriterTo-fails":
+		return s.Encode(ctx, failingWriterTo{whole})
+	default: // TokenWriter:closed-mid-element
+		w := s.TokenWriter()
+		for _, t := range whole {
+			if err := w.EncodeToken(t); err != nil {
+				w.Close()
+				return err
+			}
+		}
+		return w.Close()
+	}
 }
 
 type handlerLog struct {
@@ -339,6 +398,44 @@ func run(c *core.Case) {
 		p.Lib.Close()
 		return
 	}
+	// ---- final phase (a third of the histories, the five forms in turn): one call that fails in the
+	// middle of its element, then ordinary calls, which must be complete
+	// top-level elements like any other successful call
+	partialForm := ""
+	if fr := core.NewRand(core.SubSeed(c.Seed, "C05", c.Index, "final")); c.Index%3 == 0 {
+		partialForm = partialForms[(c.Index/3)%len(partialForms)]
+		var fin []*opRec
+		prec := &opRec{Actor: nActors, N: 0, Marker: "partial", Entry: "Partial", Form: partialForm, stanza: true, partial: true, TCall: clock.Add(1)}
+		var perr error
+		if c.Guard("Partial:"+partialForm, func() { perr = doPartial(p.S, partialForm) }) {
+			prec.Err = "panic"
+		} else if perr != nil {
+			prec.Err = perr.Error()
+		}
+		prec.wireAtRet, prec.TRet = int64(p.Lib.WrittenLen()), clock.Add(1)
+		fin = append(fin, prec)
+		g := &gen{r: fr, streamNS: streamNS, s2s: o.S2S, s: p.S}
+		for n := 1; n <= 3; n++ {
+			marker := fmt.Sprintf("fin-%d", n)
+			kind := kinds[fr.Intn(3)]
+			e := g.stanzaTop(kind, typeFor(fr, kind, false), marker, "")
+			rec := &opRec{Actor: nActors, N: n, Marker: marker, Entry: "AfterPartial", Form: partialForm, stanza: true, TCall: clock.Add(1)}
+			rec.want, rec.Size = e.node(""), sizeClass(e)
+			var err error
+			ctx, cancel := context.WithTimeout(context.Background(), 30*time.Second)
+			if c.Guard(rec.Entry, func() { err = p.S.Send(ctx, reader(e.tokens(nil))) }) {
+				rec.Err = "panic"
+			} else if err != nil {
+				rec.Err = err.Error()
+			}
+			cancel()
+			rec.wireAtRet, rec.TRet = int64(p.Lib.WrittenLen()), clock.Add(1)
+			fin = append(fin, rec)
+		}
+		recs = append(recs, fin)
+		c.Count("histories_with_partial_failure", 1)
+		c.Count("partial:"+partialForm, 1)
+	}
 	p.ClosePeer()
 	var serveErr error
 	serveFin := make(chan struct{})
@@ -366,7 +463,11 @@ func run(c *core.Case) {
 		if hi > len(wire) {
 			hi = len(wire)
 		}
-		c.Violate("wire:malformed", "output stream is not well-formed after offset %d: %v\n…%q", st.Consumed, st.Err, wire[lo:hi])
+		key := "wire:malformed"
+		if partialForm != "" {
+			key = "wire:after-partial:" + partialForm + ":malformed"
+		}
+		c.Violate(key, "output stream is not well-formed after offset %d: %v\n…%q", st.Consumed, st.Err, wire[lo:hi])
 		return
 	}
 	all := map[string]*opRec{}
@@ -455,6 +556,15 @@ func run(c *core.Case) {
 			}
 			if len(els) != 0 {
 				c.Violate("wire:invalid-argument:written:"+rec.Form, "%s failed (%s) but something carrying its marker reached the wire: %s", rec.Form, rec.Err, trunc(els[0].String()))
+			}
+			continue
+		}
+		if rec.partial {
+			// the call that was made to fail half-way: what it left on the wire (a
+			// truncated but closed element, or nothing) is not judged, the calls
+			// after it are
+			if rec.Err == "" && rec.Form != "TokenWriter:closed-mid-element" {
+				c.Violate("wire:partial-accepted:"+rec.Form, "%s returned nil although its argument failed half-way", rec.Form)
 			}
 			continue
 		}
@@ -555,7 +665,7 @@ func trunc(s string) string {
 
 // Prop returns the C05 check.
 func Prop() *core.Prop {
-	req := []string{"histories", "component_streams", "invalid_argument_calls", "handler_replies_after_refused_writes", "calls_overlapping_another_actor", "elements_spanning_several_writes", "auto_replies", "wire_stanzas"}
+	req := []string{"histories", "histories_with_partial_failure", "partial:Send:reader-fails", "partial:SendElement:payload-reader-fails", "partial:Encode:xmlstream.Marshaler-fails", "partial:Encode:xmlstream.WriterTo-fails", "partial:TokenWriter:closed-mid-element", "component_streams", "invalid_argument_calls", "handler_replies_after_refused_writes", "calls_overlapping_another_actor", "elements_spanning_several_writes", "auto_replies", "wire_stanzas"}
 	for _, e := range []string{"Send", "SendElement", "Encode", "EncodeElement", "TokenWriter", "HandlerReply",
 		"SendIQ", "SendIQElement", "EncodeIQ", "EncodeIQElement", "UnmarshalIQ", "UnmarshalIQElement", "IterIQ", "IterIQElement",
 		"SendMessage", "SendMessageElement", "EncodeMessage", "EncodeMessageElement",
